@@ -56,6 +56,7 @@ type c18Case struct {
 	In    inputSpec `json:"in"`
 	Frag  int       `json:"frag"`
 	Fail  int       `json:"fail_at,omitempty"`
+	Wrap  bool      `json:"fail_wraps_eof,omitempty"`
 	Sizes []int     `json:"read_sizes"`
 	Drain int       `json:"drain"`
 }
@@ -78,7 +79,7 @@ func runCR(k c18Case, input []byte, drain bool) (r crRun) {
 		}
 	}()
 	ps := fragPatterns()
-	src := &fragSource{data: input, pat: ps[k.Frag%len(ps)], failAt: k.Fail}
+	src := &fragSource{data: input, pat: ps[k.Frag%len(ps)], failAt: k.Fail, wrap: k.Wrap}
 	if k.Fail > 0 {
 		src.failN = 0
 	}
@@ -293,9 +294,10 @@ func c18Run(c *ev.Ctx) {
 				if f == 0 && ncalls > 300 {
 					ncalls = 300
 				}
-				for kf := 1; kf <= ncalls; kf++ {
+				for kf2 := 2; kf2 <= 2*ncalls+1; kf2++ {
+					kf := kf2 / 2
 					k := base
-					k.Frag, k.Fail = f, kf
+					k.Frag, k.Fail, k.Wrap = f, kf, kf2%2 == 1
 					k.Sizes = []int{16}
 					k.Drain = 4096
 					res := runCR(k, input, true)
